@@ -52,7 +52,7 @@ PROPS = {
         trusted=CODEC_TRUST,
     ),
     "C05": dict(
-        domains=[("stream", "read", 6000, 80000), ("stream", "exhaustive", 1500, 6000), ("conn", "serve", 400, 4000), ("conn", "cnall4", 1, 1), ("conn", "xtalk", 24, 200), ("conn", "rdl", 1, 1)],
+        domains=[("stream", "read", 6000, 80000), ("stream", "exhaustive", 1500, 6000), ("conn", "serve", 400, 4000), ("conn", "cnall4", 1, 1), ("conn", "xtalk", 24, 200), ("conn", "rdl", 1, 1), ("resource", "buflen", 1, 1)],
         relevant=["C05:"],
         theorems=["DV.Props.C05."+t for t in ["C05_split","C05_frag","C05_one","C05_eof","C05_in_header","C05_by_length","C05_all_bytes_arrive","C05_error_first_counterexample","C05_fill_gen","C05_gen"]],
         gen_obligations=["Gen.HeaderLength","Gen.MessageBufferLength","Gen.readMessageCalls","Gen.readBodyGuard","Gen.readBodyLength","Gen.readDeadlineArming","Gen.directReadCalls","Gen.readerFillCalls"],
@@ -133,7 +133,7 @@ PROPS = {
                               "Model.ConnWrite: writer objects and the transports they point at (Server.newConn, response.Write); that each connection allocates its own bufio.Writer is the regenerated fact Gen.connBufferSources"],
     ),
     "C06": dict(
-        domains=[("alias", "leaf", 4000, 60000), ("alias", "hist", 1500, 20000), ("smserver", "hist", 800, 10000), ("reflect", "rt", 600, 6000), ("smserver", "multi", 400, 4000)],
+        domains=[("alias", "leaf", 4000, 60000), ("alias", "hist", 1500, 20000), ("smserver", "hist", 800, 10000), ("reflect", "rt", 600, 6000), ("smserver", "multi", 400, 4000), ("alias", "twin", 300, 3000)],
         relevant=["C06:"],
         theorems=["DV.Props.C06."+t for t in ["C06_owned","C06_unchanged","C06_private_buffer","C06_gen","C06_current","C06_alias_counterexample"]],
         gen_obligations=["Gen.sliceKinded","Gen.decoderAliasing","Gen.groupedAVPFields","Gen.bodyBuffer","Gen.syncPools"],
